@@ -99,19 +99,20 @@ def build(tokens, elems, group_reps):
     return stmts(0), stats
 
 
-def unroll(items, parent_name=None):
-    "expected output tree: list of (name, void, children)"
+def unroll(items, parent_name=None, inline=None):
+    "expected output tree: list of (name, void, children); inline = the inlineElements option in effect (None: the default list)"
+    inl = INLINE if inline is None else set(inline)
     res = []
     for n in items:
         for _ in range(n.rep):
             if n.group:
-                res += unroll(n.ch, parent_name)
+                res += unroll(n.ch, parent_name, inline)
             else:
                 name = n.name
                 if name is None:
                     p = (parent_name or '').lower()
-                    name = IMPLICIT.get(p, 'span' if p in INLINE else 'div')
-                res.append((name, n.void, unroll(n.ch, name)))
+                    name = IMPLICIT.get(p, 'span' if p in inl else 'div')
+                res.append((name, n.void, unroll(n.ch, name, inline)))
     return res
 
 
